@@ -57,6 +57,7 @@ def run(R):
                      "polymorphic MIR: init constructs sleeping=false and every built-in model's init ends with sleep-out followed by "
                      ">=120 ms; sleep/wake send exactly their command, then >=120 ms of delay, then set the flag (unchanged on error "
                      "paths); no other method writes the flag or emits a sleep-class command. Hence the property for every history.")
+    R.witnesses('W1', 'C13-witness-private-state')
     for cfg in R.configs:
         F = R.facts(cfg)
         # O2 / O3
